@@ -178,7 +178,9 @@ def cyclic_project(rnd, idx):
     return [("lib.rs", "".join(src))]
 
 
-ATTR_NAMES = ["derive", "serde", "validate", "tauri::command", "command", "cfg", "cfg_attr", "doc", "allow", "specta::specta", "path", "test"]
+ATTR_NAMES = ["derive", "serde", "validate", "tauri::command", "command", "cfg", "cfg_attr", "doc", "allow", "specta::specta", "path", "test",
+              # the same words at other path lengths / positions
+              "tauri", "tauri::command::extra", "::tauri::command", "crate::command", "command::tauri", "serde::rename", "validator::validate", "tauri::ipc"]
 ATTR_FORMS = ["#[@N@]", "#[@N@ = \"Serialize\"]", "#[@N@ = 5]", "#[@N@()]", "#[@N@[Serialize, Deserialize]]", "#[@N@{Serialize}]", "#[@N@(= x)]", "#[@N@(Serialize = )]",
               "#[@N@(,)]", "#[@N@(rename_all)]", "#[@N@(rename_all = )]", "#[@N@(test)]", "#[@N@ = concat!(\"a\", \"b\")]", "#[@N@(\"literal\")]", "#[@N@(a::b::c(d(e)))]",
               "#[@N@(Serialize, Deserialize)]"]
